@@ -300,7 +300,9 @@ def signed(case, ctx):
 
 env_case = st.fixed_dictionaries({"content": content_s, "rcpts": st.lists(party_s, min_size=1, max_size=4), "outsider": party_s, "issuer": _issuer, "key": _key16, "iv": _key16,
                                   "s1": _opt_info, "s2": _opt_info, "base": st.integers(0, 1 << 20), "seed": st.integers(1, 1 << 40), "fseed": st.integers(0, 1 << 32),
-                                  "full": _full})
+                                  "full": _full,
+                                  # one call of cms_envelop, or the message assembled from its parts (RecipientInfos added one at a time)
+                                  "how": st.sampled_from(["oneshot", "oneshot", "built"])})
 
 
 def info(v):
@@ -366,7 +368,16 @@ def enveloped(case, ctx):
     ctx.case(nontrivial=len(rs) > 1 or any(p.how != "direct" for p in rs), classes=classes_of(rs, "recipient") + content_classes(case["content"])
              + ["shared-info" if (s1 is not None or s2 is not None) else "no-shared-info"], ident=case, sample=case)
     certs = [p.cert for p in rs]
-    r, cms = C.envelop(l, certs, key, iv, ct, raw, s1, s2, case["seed"])
+    built = case.get("how") == "built"
+    if built:
+        r, cms = C.envelop_built(l, certs, key, iv, ct, raw, s1, s2, case["seed"])
+        ctx.note("assembled-from-parts")
+        if r != 1:
+            ctx.fail("EnvelopedData for %d recipients could not be assembled from its parts (cms_recipient_infos_add_recipient_info / "
+                     "cms_enveloped_data_to_der): ret=%d" % (len(rs), r), "cms/envelop/built/refused")
+            return
+    else:
+        r, cms = C.envelop(l, certs, key, iv, ct, raw, s1, s2, case["seed"])
     if r != 1:
         attribute_refusal(ctx, l, "cms/envelop", r, 0, 1024, None, 0, lambda i: C.envelop(l, [certs[i]], key, iv, ct, raw, s1, s2, case["seed"]), len(rs))
         return
